@@ -32,6 +32,10 @@ type expect struct {
 	// zeroSum: the result, if it is an exact zero, must have this sign
 	zeroSumChecked bool
 	zeroNeg        bool
+	// signKnown: whatever the magnitudes, the result carries this sign bit (rounding,
+	// overflow to Inf and underflow to zero all keep the sign of the exact value)
+	signKnown bool
+	sign      bool
 }
 
 // sumClass models x + y for operand classes (y already negated for Sub).
@@ -52,15 +56,17 @@ func sumClass(x, y cls, mode decimal.RoundingMode) expect {
 			return expect{known: true, res: cls{0, x.neg}}
 		}
 		return expect{known: true, res: cls{0, mode == decimal.ToNegativeInf}}
-	case x.form == 0 || y.form == 0:
-		// x + 0 = x (rounded to the receiver): the sign is that of the non-zero operand
-		return expect{}
+	case x.form == 0:
+		// 0 + y = y (rounded to the receiver): the sign is that of the non-zero operand
+		return expect{signKnown: true, sign: y.neg}
+	case y.form == 0:
+		return expect{signKnown: true, sign: x.neg}
 	}
 	// finite + finite: an exactly zero sum of opposite-signed operands
 	if x.neg != y.neg {
 		return expect{zeroSumChecked: true, zeroNeg: mode == decimal.ToNegativeInf}
 	}
-	return expect{}
+	return expect{signKnown: true, sign: x.neg}
 }
 
 func mulClass(x, y cls) expect {
@@ -114,14 +120,14 @@ func fmaClass(x, y, u cls, mode decimal.RoundingMode) expect {
 	}
 	if u.form == 0 {
 		// finite product + ±0: the sign is the product's
-		return expect{}
+		return expect{signKnown: true, sign: x.neg != y.neg}
 	}
 	// finite product + finite u: the value decides, except that an exactly zero
 	// sum of opposite-signed terms is +0 (-0 under ToNegativeInf)
 	if (x.neg != y.neg) != u.neg {
 		return expect{zeroSumChecked: true, zeroNeg: mode == decimal.ToNegativeInf}
 	}
-	return expect{}
+	return expect{signKnown: true, sign: u.neg}
 }
 
 type oracleC04 struct {
@@ -186,6 +192,8 @@ func (o *oracleC04) after(c *stepCtx) *ViolationRec {
 			ex = expect{invalid: true}
 		case x.form != 1:
 			ex = expect{known: true, res: x} // sqrt(±0) = ±0, sqrt(+Inf) = +Inf
+		default:
+			ex = expect{signKnown: true, sign: false}
 		}
 	case "SetFloat64":
 		modelled = true
@@ -235,6 +243,12 @@ func (o *oracleC04) after(c *stepCtx) *ViolationRec {
 		o.cnt["special_results_checked"]++
 		if post.Form != ex.res.form || post.Neg != ex.res.neg {
 			return fail("wrong-special-result", "result is %s, IEEE-754 gives %s", post.Value(), Obs{Form: ex.res.form, Neg: ex.res.neg}.Value())
+		}
+	}
+	if ex.signKnown {
+		o.cnt["result_signs_checked"]++
+		if post.Neg != ex.sign {
+			return fail("wrong-result-sign", "result %s has sign bit %v; the exact result has sign bit %v whatever the magnitudes", post.Value(), post.Neg, ex.sign)
 		}
 	}
 	// exact cancellation decided from the operands, not from the reported accuracy
